@@ -72,6 +72,27 @@ def run(e: Engine, rep: Report):
              'has NOT been consumed yet; a consumed prefix kept behind an '
              'offset is read again as message content)')
     g11(e, rep, 'G11')
+    rep.rule('G12', 'the receive path hands on what the socket returned: '
+             'raw_recv / buffered_recv apply no rewriting operation (table '
+             'c05.CONTENT_REWRITERS) to the bytes - a per-read rewrite sees '
+             'where the stream was cut, so the same stream comes out '
+             'differently for different segmentations')
+    g12(e, rep, 'G12')
+    rep.rule('G13', '= C05-R5.6: the end of the data is decided in one '
+             'place - EOD is written only for a line that matched the '
+             'end-of-data pattern (or on giving up), cursor and line table '
+             'only by their owner methods (a second, whole-buffer grammar '
+             'for the end marker disagrees with the line-wise one for some '
+             'streams, and only when they arrive in one piece)')
+    from . import c05 as _c05
+    sub = Report(rep.prop, rep.tier, rep.repo)
+    _c05.r56(e, sub)
+    for o in sub.obls:
+        if o.text.startswith('write of self.'):
+            rep.add('G13', o.where, o.text, o.status, o.what, o.loc,
+                    o.witness, o.nontrivial, o.reason)
+    rep.errors += sub.errors
+    rep.evaluations += sub.evaluations
     rep.floor('G1', 6, 'buffer / socket access sites')
 
 
@@ -1099,3 +1120,34 @@ def g11(e: Engine, rep: Report, rule: str = 'G11'):
                   'bytes after the end of data are skipped', loc=r.loc(),
                   reason='recv_buffer = <slice past the match> on every path',
                   witness=dataflow.render_path(w, 12) if w else None)
+
+
+# --------------------------------------------------------------------- G12
+def g12(e: Engine, rep: Report, rule: str = 'G12'):
+    from .c05 import CONTENT_REWRITERS
+    n = 0
+    for meth in ('raw_recv', 'buffered_recv'):
+        m = e.p.lookup_method(IOC, meth)
+        if m is None:
+            continue
+        n += 1
+        rep.functions.add(m.qname)
+        for x in ast.walk(m.node):
+            if isinstance(x, ast.Call) and \
+                    isinstance(x.func, ast.Attribute) and \
+                    x.func.attr in CONTENT_REWRITERS:
+                rep.evaluations += 1
+                rep.bad(rule, m.qname, '`%s`' % ' '.join(
+                    ast.unparse(x).split())[:50],
+                    '%s rewrites what a single read returned (%s): a '
+                    'sequence the rewrite looks for can be cut between two '
+                    'reads, so the bytes the session sees depend on how '
+                    'the stream was segmented' % (meth, x.func.attr),
+                    loc=m.loc(x))
+    rep.evaluations += 1
+    if n < 2:
+        rep.error('anchor vanished: IO.raw_recv / buffered_recv')
+    else:
+        rep.ok(rule, IOC, 'received bytes are handed on unchanged',
+               reason='no rewriting call in raw_recv / buffered_recv',
+               nontrivial=False)
